@@ -26,6 +26,19 @@ def emitter_allow(ctx):
     return out
 
 
+_SINGLETON_NAMES = {}
+
+
+def _is_error_singleton(state):
+    """``state`` names one of the module-level XLError instances (any other object of that module is ordinary state)."""
+    if not state.startswith('hotxlfp.formulas.error.'):
+        return False
+    leaf = state.split('.')[-1]
+    if _SINGLETON_NAMES.get('names') is not None:
+        return leaf in _SINGLETON_NAMES['names']
+    return leaf.isupper() and not leaf.startswith('_')
+
+
 def classify(ev, allow):
     """-> (kind, description) with kind in 'state' | 'host' | None (not reportable)."""
     r = ev.receiver
@@ -38,7 +51,7 @@ def classify(ev, allow):
                     all(s in ('%s.%s' % (cname, store), 'self') for s in states):
                 return None, None
         # the XLError singletons are shared objects, but only attribute stores can change them
-        real = [s for s in states if not s.startswith('hotxlfp.formulas.error.') or ev.kind in ('store', 'delete')]
+        real = [s for s in states if not _is_error_singleton(s) or ev.kind in ('store', 'delete')]
         if ev.kind in ('call', 'iop') and not real:
             pass
         else:
@@ -52,6 +65,11 @@ def check_region(res, ctx, rule_state, rule_host, keys, label):
     """Obligations: no event in ``keys`` writes persistent state (rule_state) or mutates a host value (rule_host)."""
     eff = ctx.effects
     allow = emitter_allow(ctx)
+    try:
+        from .rules.c01 import error_singletons
+        _SINGLETON_NAMES['names'] = set(error_singletons(ctx.model)[1])
+    except Exception:
+        _SINGLETON_NAMES['names'] = None
     keys = set(keys)
     seen = set()
     n_events = 0
